@@ -51,6 +51,7 @@ class Group:
         self._gateways: list[Gateway] = []
         self._autoidcounter = 0
         self._autoidlock = Lock()
+        self._ids_being_made: set[str] = set()
         self._gateways_to_join: list[Gateway] = []
         # we use the same execmodel for all of the Gateway objects
         # we spawn on our side.  Probably we should not allow different
@@ -141,9 +142,19 @@ class Group:
         if not isinstance(spec, XSpec):
             spec = XSpec(spec)
         self.allocate_id(spec)
-        if spec.id in self:
-            # refuse before a process is started that nobody would own
-            raise ValueError(f"already have gateway with id {spec.id!r}")
+        with self._autoidlock:
+            if spec.id in self or spec.id in self._ids_being_made:
+                # refuse before a process is started that nobody would own
+                raise ValueError(f"already have gateway with id {spec.id!r}")
+            # the id is taken from now on, not only once the gateway is up
+            self._ids_being_made.add(spec.id)
+        try:
+            return self._makegateway(spec)
+        finally:
+            with self._autoidlock:
+                self._ids_being_made.discard(spec.id)
+
+    def _makegateway(self, spec: XSpec) -> Gateway:
         if spec.execmodel is None:
             spec.execmodel = self.remote_execmodel.backend
         if spec.via:
@@ -192,7 +203,7 @@ class Group:
             with self._autoidlock:
                 id = "gw" + str(self._autoidcounter)
                 self._autoidcounter += 1
-                if id in self:
+                if id in self or id in self._ids_being_made:
                     raise ValueError(f"already have gateway with id {id!r}")
                 spec.id = id
 
